@@ -261,6 +261,13 @@ def run_shard(shard):
             sites.add(p.label)
         for t in sched.trace:
             switch_sites.add(t)
+        if stats.executions % 50 == 0 and bad is None:
+            # determinism audit: the same choice list must give the same
+            # observation and the same scheduling points
+            again = run(explorer.Ctx(tuple(ctx.choices)))
+            res.count("thread_schedules_executed_twice")
+            if repr(again[0]) != repr(obs) or again[2].trace != sched.trace:
+                res.error("NONDETERMINISM (audit) C10 threads %r" % (c,))
         if stats.executions % 100 == 0:
             # cyclic garbage (scheduler <-> threads <-> closures) is collected
             # between executions, never inside one
